@@ -270,7 +270,12 @@ def replay(ctx, path):
     """write the stored recording again, re-execute the stored history on a fresh real mirror and validate again"""
     import json
 
-    sc = json.load(open(path))["replay"]["scenario"]
+    obj = json.load(open(path))["replay"]
+    sc = obj["scenario"]
+    if obj.get("module") != "MirrorTrace" or "rerun" not in sc:
+        # a trace of the composition (DrfPipelineTrace): re-validated as recorded
+        from ..core import replay_generic
+        return replay_generic(ctx, path)
     ctx.stage()
     import digital_rf
 
